@@ -53,6 +53,7 @@ class World:
         self.block = None
         self.new = {}
         self.args_ok = True
+        self.popall_hook = None   # what a "popall" exit does (set per unwind by the replay)
         self.acct = Accounting()
 
     def exc_of(self, e):
@@ -76,6 +77,10 @@ class World:
             e2 = self.nent
             if self.current is not None:     # ExitStack / AsyncExitStack: one more callback, same stack
                 self.current.callback(lambda a, kw=None, e2=e2: self.core(e2, "falsy", None), "arg", kw=1)
+            return False
+        if beh == "popall":
+            if self.popall_hook is not None:
+                self.popall_hook()
             return False
         if beh == "raise" or (beh == "raisewh" and exc is not None):
             raise self.exc_of(e)
@@ -360,6 +365,23 @@ def _replay_path(args):
             start2 = len(w2.log)
             w.current, w2.current = tgt, tstd
             nent0 = w.nent
+
+            def mk_hook(dct, which_=which):
+                def hook():
+                    if which_ == "main" and dct["moved"] is None:
+                        dct["moved"] = dct["main"].pop_all()
+                return hook
+            w.popall_hook, w2.popall_hook = mk_hook(stacks), mk_hook(stds)
+            # the first "popall" exit to run (the last registered one) ends this unwind: what was registered
+            # before it moves to the new stack
+            trigger = None
+            if which == "main" and stacks["moved"] is None:
+                for idx_ in range(len(entries[which]) - 1, -1, -1):
+                    if entries[which][idx_][2] == "popall":
+                        trigger = idx_
+                        break
+            running = entries[which] if trigger is None else entries[which][trigger:]
+            left_over = [] if trigger is None else entries[which][:trigger]
             if op.startswith("aclose"):
                 if salt % 2:     # aclose() unwinds with "no exception", whatever is being handled around it
                     res = run(while_handling(tgt.aclose), w.acct)
@@ -378,12 +400,12 @@ def _replay_path(args):
             # a "push" exit registers one more callback that runs right after it: in terms of nested
             # statements, a callback-manager just outside the pushing one (ids in unwinding order)
             pushed, nid = {}, nent0
-            for (e, ck, b) in reversed(entries[which]):
+            for (e, ck, b) in reversed(running):
                 if b == "push":
                     nid += 1
                     pushed[e] = nid
             cms = []
-            for (e, ck, b) in entries[which]:
+            for (e, ck, b) in running:
                 if e in pushed:
                     cms.append(wn.make(pushed[e], "cba", "falsy")[2])
                 cms.append(wn.make(e, ck, b)[2])
@@ -395,6 +417,8 @@ def _replay_path(args):
             else:
                 resn_out = outcome_of(wn, resn, bool(x))
             entries[which] = []
+            if trigger is not None:
+                entries["moved"] = left_over
             cur = {"log": w.log[start:], "res": outcome_of(w, res, bool(x)), "k": 0, "step": j,
                    "std_log": w2.log[start2:], "std_res": outcome_of(w2, res2, bool(x)),
                    "nest_log": wn.log, "nest_res": resn_out}
@@ -448,7 +472,7 @@ def random_history(args):
     stack = L.ExitStack()
     stacks = {"main": stack, "moved": None}
     ev, nent = [], 0
-    behs = ["falsy", "truthy", "raise", "raisewh", "reraise", "push"]
+    behs = ["falsy", "truthy", "raise", "raisewh", "reraise", "push", "popall"]
     for _ in range(rnd.randint(4, 12)):
         x = rnd.random()
         if x < 0.5 and w.nent < 7:
@@ -481,6 +505,11 @@ def random_history(args):
             start = len(w.log)
             tgt = stacks[which]
             w.current = tgt
+
+            def hook(which_=which):
+                if which_ == "main" and stacks["moved"] is None:
+                    stacks["moved"] = stacks["main"].pop_all()
+            w.popall_hook = hook
             if acl:
                 res = run(tgt.aclose(), w.acct)
             else:
